@@ -121,6 +121,10 @@ Definition words_ok (ws : list N) : Prop := Forall (fun w => w < 2 ^ 64) ws.
 Definition count_lt (idx : list N) (i : N) : nat :=
   length (filter (fun k => k <? i) idx).
 
+(* number of words of bitmap.Of(idx): enough for the last position *)
+Definition span_words (idx : list N) : N :=
+  match last_N idx with None => 0 | Some m => word_of m + 1 end.
+
 Fixpoint ascending (idx : list N) : bool :=
   match idx with
   | a :: (b :: _) as r => (a <? b) && ascending r
